@@ -249,7 +249,9 @@ func (m *Model) Draw(win vaxis.Window) {
 	chars := m.content
 	cursor := col
 	// Make sure we've scrolled enough to have the cursor in the view
-	for widthToCursor(chars, m.cursor, m.offset)+col+scrolloff >= winW {
+	// (scrolling past the cursor cannot help in a window narrower than
+	// the prompt and the scroll margin)
+	for m.offset < m.cursor && widthToCursor(chars, m.cursor, m.offset)+col+scrolloff >= winW {
 		m.offset += 1
 	}
 	// Or we need to scroll toward beginning of line
